@@ -232,9 +232,15 @@ def monitor_arrays():
                 a.setflags(write=True); a.flat[0] += 1; a.setflags(write=False)
             except ValueError:
                 continue
-            after = ebisim.Element.get(z)
-            if not np.array_equal(getattr(after, k), ref):
-                out.append((z, k, "mutation leaks into the database"))
+            try:
+                after = ebisim.Element.get(z)
+                leaked = not np.array_equal(getattr(after, k), ref)
+                how = "mutation leaks into the database"
+            except Exception as ex:
+                leaked = True
+                how = f"mutation leaks into the database (a later Element.get({z}) raises {type(ex).__name__}: {str(ex)[:60]})"
+            if leaked:
+                out.append((z, k, how))
                 # undo
                 a.setflags(write=True); a.flat[0] -= 1; a.setflags(write=False)
     return out
@@ -253,6 +259,18 @@ def search(ctx):
     import ebisim
     from ebisim.physconst import K_B, PI, Q_E, MINIMAL_N_1D, MINIMAL_KBT
     rng = np.random.default_rng([ctx.seed, 1111])
+    # rejection exactly below the minimal line density, for thin and wide tubes
+    for r in (2e-4, 5e-3, 5e-2):
+        for fac in (0.5, 0.999, 1.001, 2.0, 1e3):
+            T = 300.0; p = fac * MINIMAL_N_1D * K_B * T / 100 / (PI * r * r)
+            n0 = p * 100 / (K_B * T) * PI * r * r
+            try:
+                e = ebisim.Element.get_gas(8, p, r, T); res = "accepted"
+            except ValueError:
+                res = "ValueError"
+            want = "accepted" if n0 >= MINIMAL_N_1D else "ValueError"
+            if res != want or (res == "accepted" and abs(e.n[0] - n0) > 1e-12 * n0):
+                V.append({"key": {"clause": "gas_minimum"}, "what": f"get_gas(p={p!r}, r_dt={r}, T={T}): line density {n0!r} vs minimum {MINIMAL_N_1D}: {res}, expected {want}", "input": {"p": p, "r": r, "T": T}})
     for _ in range(60):
         z = int(rng.integers(1, 106)); p = float(10 ** rng.uniform(-11, -4)); r = float(10 ** rng.uniform(-3, -1.3)); T = float(rng.uniform(4, 3000))
         n0 = p * 100 / (K_B * T) * PI * r * r
